@@ -262,6 +262,17 @@ def same_real(ctx, e1, t1, e2, t2):
         return False
 
 
+def _sum_of_squares(t):
+    if z3.is_rational_value(t) or z3.is_int_value(t):
+        return not str(t).startswith('-')
+    k = t.decl().kind()
+    if k == z3.Z3_OP_ADD:
+        return all(_sum_of_squares(c) for c in t.children())
+    if k == z3.Z3_OP_MUL and t.num_args() == 2:
+        return t.arg(0).eq(t.arg(1))
+    return False
+
+
 def uf_apply(ctx, name, *args):
     args = [lift_float(a) for a in args]
     if ctx.concrete_math and all(_c(a) for a in args):
@@ -298,7 +309,10 @@ def _axioms(ctx, name, zs, r):
     ax = ctx.axiom
     if name == 'sqrt':
         x, = zs
-        ax(z3.Implies(x >= 0, z3.And(r >= 0, r * r == x)))
+        if _sum_of_squares(x):
+            ax(z3.And(r >= 0, r * r == x))      # a sum of squares is never negative
+        else:
+            ax(z3.Implies(x >= 0, z3.And(r >= 0, r * r == x)))
     elif name in ('sin', 'cos'):
         x, = zs
         s = uf_apply(ctx, 'sin', SNum(x)).t if name == 'cos' else r
